@@ -228,3 +228,33 @@ LANG_FINDINGS[[f["id"] for f in LANG_FINDINGS].index("C05-width-read-input-opera
     P([10, [LET(V("A"), N(40))]], [20, [["dev", "WIDTH", {"a": FN("INT", V("A"))}]]]),
     P([10, [LET(V("A"), N(40))]], [20, [["dev", "WIDTH", {"a": B("+", N(40), ["arr", "Q", [N(0)]])}]]])]
 LANG_FINDINGS[[f["id"] for f in LANG_FINDINGS].index("C05-width-read-input-operands-not-visited")]["what"] += "; an array that occurs only in a WIDTH operand is never declared"
+
+
+# ---------------------------------------------------------------- repaired later in the build round
+def _find(fid):
+    return LANG_FINDINGS[[f["id"] for f in LANG_FINDINGS].index(fid)]
+
+def mark_fixed(fid, commit):
+    f = _find(fid)
+    f["status"] = "fixed"
+    f["commit"] = commit
+    f.pop("switch", None)
+
+mark_fixed("C04-leading-unary-operand-dropped", "ea49ec4")
+mark_fixed("C15-hex-data-item-with-empty-item", "ebeb205")
+mark_fixed("C15-procedure-name-with-non-word-characters", "4836963")
+mark_fixed("C10-implicit-string-arrays-unsized", "5dd1bab")
+
+# the WIDTH half of "operands not visited" is repaired (3a8d956); the READ / INPUT half is pinned by golden tests and stays open
+_w = _find("C05-width-read-input-operands-not-visited")
+_w["id"] = "C05-read-input-subscripts-not-visited"
+_w["what"] = ("the subscripts of READ / INPUT targets are never visited: a function that must become a procedure call is lost there "
+              "('READ A(INT(B))' gives 'READ arr_A')")
+_w["pinned_by"] = "tests/coco_tests/b09/test_b09.py::TestB09::test_input, test_simple_read (same visit gap as C10-read-input-varptr-only-variables)"
+_width_wit = {"C07": _w["witnesses"].pop("C07"), "C04": _w["witnesses"].pop("C04"), "C05": [_w["witnesses"]["C05"][0]]}
+_w["witnesses"]["C05"] = _w["witnesses"]["C05"][1:]
+_w["property"] = ["C05"]
+_w["switch"] = "no_convertible_in_read_input_subscripts"
+finding("C05-width-operand-not-visited", ["C05", "C07", "C04"],
+        "the operand of WIDTH was never visited: 'WIDTH INT(A)' gave 'run _ecb_width(, display)', and an array that occurs only in a WIDTH operand was never declared",
+        _width_wit, status="fixed", commit="3a8d956")
